@@ -298,7 +298,8 @@ def run_c12(sink, rng, n, impl, codecs):
                 continue
             seen.add(name)
             key_m = [m for m in ast_t['root'] if m['name'] == 'key'][0]
-            cases = [('wrong-python-type', dict(v, key=rng.choice([5, None, 1.5, [], {}])), name + '.key')]
+            wrong = [1.5, None, [], {}, (1,)] if key_m['t']['k'] == 'int' else [5, None, 1.5, [], {}]
+            cases = [('wrong-python-type', dict(v, key=rng.choice(wrong)), name + '.key')]
             if not key_m['opt'] and key_m['default'] is None:
                 nv = {k: x for k, x in v.items() if k != 'key'}
                 cases.append(('missing-mandatory-member', nv, name))
